@@ -38,6 +38,15 @@ CONSTANTS
     Mnems,       \* classes of user mnemonics for bip39 = -1: "plain", "messy", "badsum", "badword", and with a BIP39 passphrase
                  \* (-p39; used verbatim by PBKDF2): "pass", "pass_space", "pass_lead", "pass_trail", "pass_tab", "pass_nl",
                  \* "pass_inner", "pass_nonascii" - how each is typed and what reaches BIP39 is the concretiser's table
+    PassSrcs,    \* how the seed password reaches the wallet: "file" (.secret prepared by hand), "stdin" (-stdin), "typed" (no .secret,
+                 \* typed at the prompt, not saved), "typedsave" (typed, "Save the password on disk?" answered y, every later run
+                 \* reads the saved file), "forceask" (-p: typed although a .secret with something else exists)
+    SeedSyns,    \* spelling of the seed= line of wallet.cfg (literal key material prepended to the password): "none", "empty",
+                 \* "plain", "inner" (blanks inside), "padded" (blanks / tabs around: stripped), "crlf", "qstart" / "qend" / "qboth" /
+                 \* "qinner" (double quotes are NOT syntax: kept), "eqhash" ('=' and '#' inside: kept), "nonascii"
+    CfgSyns,     \* spelling of the other lines / switches that feed the derivation: "plain", "quoted" (hdpath, atype), "padded"
+                 \* (indentation, trailing blanks, blanks around the atype value), "crlf", "upperkey" (keys in capitals), "flags"
+                 \* (command line switches instead of wallet.cfg lines)
     EntTable,    \* sequence of [ent : sequence of bytes, cs : first byte of SHA-256(ent)] for the BIP39 bit-level part
     Bug          \* "none" or the name of a deliberately broken rule
 
@@ -52,7 +61,7 @@ MaxIdx == 2147483647
 UserMn == 1      \* (the cfg parser has no negative numbers)
 
 NoCfg == [wt |-> 0, depth |-> 0, subs |-> 1, keycnt |-> 1, atype |-> "", testnet |-> FALSE,
-          bip39 |-> 0, scrypt |-> 0, pass |-> "", mnem |-> ""]
+          bip39 |-> 0, scrypt |-> 0, pass |-> "", mnem |-> "", src |-> "file", seedsyn |-> "none", syn |-> "plain"]
 NoOut == [ok |-> FALSE, why |-> "", seed |-> [k |-> ""], keys |-> <<>>, xpubs |-> <<>>, xprvs |-> <<>>, via |-> <<>>, form |-> [a |-> ""]]
 
 ----------------------------------------------------------------------------
@@ -192,6 +201,20 @@ ChooseSeed ==
           /\ (b # UserMn => mn = CHOOSE m \in Mnems : TRUE)           \* the mnemonic class matters only for bip39 = -1
           /\ (b = UserMn => pk = CHOOSE k \in PassKinds : TRUE)
           /\ cfg' = [cfg EXCEPT !.bip39 = b, !.scrypt = sc, !.pass = IF b = UserMn THEN "" ELSE pk, !.mnem = IF b = UserMn THEN mn ELSE ""]
+    /\ phase' = "syntax"
+    /\ UNCHANGED <<path, out, ent>>
+
+(* How the password arrives and how the configuration is spelled.  NONE of these enters a derivation term: the listing  *)
+(* must be the same whatever the source and the spelling - that is the property's "deterministic function of the seed   *)
+(* and configuration"; which bytes each spelling denotes is the concretiser's table, written from the documented parser *)
+(* (value = everything after the first '=', blanks / tabs / CR around it dropped, nothing else).                         *)
+IsPassMn(m) == m \in {"pass", "pass_space", "pass_lead", "pass_trail", "pass_tab", "pass_nl", "pass_inner", "pass_nonascii"}
+ChooseSyntax ==
+    /\ phase = "syntax"
+    /\ \E sr \in PassSrcs, ss \in SeedSyns, cs \in CfgSyns :
+          /\ (cfg.bip39 = UserMn /\ cfg.wt = 4 => ss \in {"none", "empty"})      \* a prefix would be read as part of the mnemonic
+          /\ (sr = "stdin" => ~IsPassMn(cfg.mnem))                               \* -stdin leaves nothing to answer the -p39 prompt with
+          /\ cfg' = [cfg EXCEPT !.src = sr, !.seedsyn = ss, !.syn = cs]
     /\ phase' = "ready"
     /\ UNCHANGED <<path, out, ent>>
 
@@ -208,7 +231,7 @@ Bip39Case ==
     /\ phase' = "bip39"
     /\ UNCHANGED <<cfg, path, out>>
 
-Next == ChooseCfg \/ AddElem \/ ChooseSeed \/ MakeWallet \/ Bip39Case
+Next == ChooseCfg \/ AddElem \/ ChooseSeed \/ ChooseSyntax \/ MakeWallet \/ Bip39Case
 
 Spec == Init /\ [][Next]_vars
 
@@ -271,6 +294,11 @@ ExportReimportIdentity ==
         /\ out.xprvs[1].path = <<>> /\ out.xprvs[2].path = Parent(path)
         /\ \A x \in 1..Len(out.xpubs) : IsPrefix(out.xpubs[x].path, Parent(path))
 
+\* the password's way in and the spelling of the configuration name no term: two configurations that differ only there list the same
+SourceAndSpellingIrrelevant ==
+    Listed => /\ \A f \in DOMAIN out.seed : f \notin {"src", "seedsyn", "syn"}
+              /\ \A j \in 1..Len(out.keys) : \A f \in DOMAIN out.keys[j] : f \notin {"src", "seedsyn", "syn"}
+
 Refusals ==
     phase = "listed" /\ ~out.ok => out.keys = <<>> /\ out.why # ""
 
@@ -287,7 +315,7 @@ Bip39Layout ==
             /\ CsOfWords(ix) = e.cs \div Pow2(8 - CsBits(e))
 
 TypeOK ==
-    /\ phase \in {"cfg", "path", "seed", "ready", "listed", "bip39"}
+    /\ phase \in {"cfg", "path", "seed", "syntax", "ready", "listed", "bip39"}
     /\ Len(path) <= MaxDepth
     /\ \A j \in 1..Len(path) : path[j].n \in 0..MaxIdx /\ path[j].h \in BOOLEAN
 =============================================================================
